@@ -954,6 +954,8 @@ func judgeDocLocal(d doc) docObs {
 			// the same finding as a failing first import: kin-openapi's conversion rejects a recursive schema or
 			// not depending on the order in which it happens to visit its maps
 			j.fail("import-fails:"+d.Format+":circular-ref", "the second import of a document with a recursive schema fails (the first succeeded): "+firstLine(second.err))
+		} else if orderDependentArray(d) {
+			j.fail("second-import-differs:"+d.Format+":array-of-builtin-prefixed-ref", "importing the same document again gives different text: an array definition whose items are a $ref to a definition named like a builtin-type prefix is written with or without the `_` prefix depending on the map order")
 		} else {
 			j.fail("second-import-differs:"+d.Format, "importing the same document again gives different text")
 		}
@@ -1104,23 +1106,29 @@ func culprits(c *common.Ctx, d doc, class string) []culprit {
 	return out
 }
 
-// projectApp: the compiled types as a canonical JSON value (used for the Coq comparison of the OpenAPI 2 stream)
+// projectApp: the compiled types as a canonical value (what the Coq import model must reproduce)
+type fieldOut struct {
+	Name string `json:"n"`
+	fieldProj
+}
+type typeOut struct {
+	Name   string     `json:"n"`
+	Shape  string     `json:"shape"` // tuple | relation | "" (alias: Alias holds the type itself)
+	Fields []fieldOut `json:"fields"`
+	Alias  *fieldProj `json:"alias,omitempty"`
+}
+
 func projectApp(d doc, app *sysl.Application) json.RawMessage {
-	type fp struct {
-		Name string `json:"n"`
-		fieldProj
-	}
-	type tp struct {
-		Name   string `json:"n"`
-		Shape  string `json:"shape"`
-		Fields []fp   `json:"fields"`
-	}
-	var out []tp
+	var out []typeOut
 	for n, t := range app.Types {
 		defs, shape := attrDefs(t)
-		x := tp{Name: n, Shape: shape}
+		x := typeOut{Name: n, Shape: shape}
+		if defs == nil && shape == "" {
+			f := projField(t)
+			x.Alias = &f
+		}
 		for fn, ft := range defs {
-			x.Fields = append(x.Fields, fp{fn, projField(ft)})
+			x.Fields = append(x.Fields, fieldOut{fn, projField(ft)})
 		}
 		sort.Slice(x.Fields, func(i, j int) bool { return x.Fields[i].Name < x.Fields[j].Name })
 		out = append(out, x)
@@ -1128,4 +1136,134 @@ func projectApp(d doc, app *sysl.Application) json.RawMessage {
 	sort.Slice(out, func(i, j int) bool { return out[i].Name < out[j].Name })
 	b, _ := json.Marshal(out)
 	return b
+}
+
+// ---------------------------------------------------------------- Gallina terms for Foreign/ImportRun.v
+
+func gb(s string) string { return "(b " + common.GBytes(s) + ")" }
+
+func gFtype(t ptype) string {
+	if t.Kind == "ref" {
+		return "(FRef " + gb(t.Ref) + ")"
+	}
+	m := oasPrimJSON(t.Prim)
+	f, _ := m["format"].(string)
+	return fmt.Sprintf("(FPrim %s %s)", common.GString(m["type"].(string)), common.GString(f))
+}
+
+var builtinTypeNames = []string{"no_primitive", "empty", "any", "bool", "int", "int32", "int64", "float", "decimal", "string", "bytes", "string_8", "date", "datetime", "xml", "uuid"}
+
+// orderDependentArray: an array definition whose items are a $ref to a definition that getSyslTypeName prefixes
+// with "_" (its lower-cased name starts with a builtin type name): the output depends on Go's map order
+func orderDependentArray(d doc) bool {
+	for _, s := range d.Schemas {
+		if s.Kind == "array" && s.Elem != nil && s.Elem.Kind == "ref" {
+			l := strings.ToLower(s.Elem.Ref)
+			for _, b := range builtinTypeNames {
+				if strings.HasPrefix(l, b) {
+					return true
+				}
+			}
+		}
+	}
+	return false
+}
+
+// flatOAS: is the document inside the subset the Coq model covers (no inline objects)?
+func flatOAS(d doc) bool {
+	for _, s := range d.Schemas {
+		for _, p := range s.Props {
+			if p.T.Kind == "obj" {
+				return false
+			}
+		}
+		if s.Elem != nil && s.Elem.Kind == "obj" {
+			return false
+		}
+	}
+	return true
+}
+
+func gOasDoc(d doc) string {
+	var defs []string
+	for _, s := range d.Schemas {
+		body := ""
+		switch s.Kind {
+		case "object":
+			var ps, rq []string
+			for _, p := range s.Props {
+				ps = append(ps, fmt.Sprintf("mkp %s %s %s", gb(p.Name), gFtype(p.T), common.GBool(p.T.Array)))
+			}
+			for _, r := range s.ReqOrder {
+				rq = append(rq, gb(r))
+			}
+			body = fmt.Sprintf("OObject %s %s", common.GList(ps), common.GList(rq))
+		case "array":
+			body = "OArray " + gFtype(*s.Elem)
+		case "enum":
+			body = "OEnum"
+		case "prim":
+			m := oasPrimJSON(s.Elem.Prim)
+			f, _ := m["format"].(string)
+			body = fmt.Sprintf("OPrim %s %s", common.GString(m["type"].(string)), common.GString(f))
+		}
+		defs = append(defs, fmt.Sprintf("(%s, %s)", gb(s.Name), body))
+	}
+	return common.GList(defs)
+}
+
+func gXsdDoc(d doc) string {
+	var defs []string
+	for _, s := range d.Schemas {
+		body := ""
+		switch s.Kind {
+		case "object":
+			var es, as []string
+			for _, p := range s.Props {
+				if p.Attr {
+					as = append(as, fmt.Sprintf("mka %s %s %s", gb(p.Name), common.GString(p.T.Prim), common.GBool(p.Required)))
+					continue
+				}
+				t := "(XPrim " + common.GString(p.T.Prim) + ")"
+				if p.T.Kind == "ref" {
+					t = "(XRef " + gb(p.T.Ref) + ")"
+				}
+				es = append(es, fmt.Sprintf("mkx %s %s %s %s", gb(p.Name), t, common.GBool(!p.Required), common.GBool(p.T.Array)))
+			}
+			base := "None"
+			if s.Base != "" {
+				base = "(Some " + gb(s.Base) + ")"
+			}
+			body = fmt.Sprintf("XComplex %s %s %s", base, common.GList(es), common.GList(as))
+		case "prim":
+			body = "XSimple " + common.GString(s.Elem.Prim)
+		}
+		defs = append(defs, fmt.Sprintf("(%s, %s)", gb(s.Name), body))
+	}
+	return common.GList(defs)
+}
+
+func gField(f fieldProj) string {
+	kind := f.Kind
+	return fmt.Sprintf("mkf %s %d %s %s %s", common.GString(kind), f.Bits, gb(f.Ref), common.GBool(f.Opt), common.GBool(f.Seq))
+}
+
+func gProj(raw json.RawMessage) (string, bool) {
+	var ts []typeOut
+	if err := json.Unmarshal(raw, &ts); err != nil {
+		return "", false
+	}
+	var out []string
+	for _, t := range ts {
+		if t.Alias != nil {
+			out = append(out, fmt.Sprintf("(%s, TAlias (%s))", gb(t.Name), gField(*t.Alias)))
+			continue
+		}
+		var fs []string
+		for _, f := range t.Fields {
+			fs = append(fs, fmt.Sprintf("(%s, %s)", gb(f.Name), gField(f.fieldProj)))
+		}
+		out = append(out, fmt.Sprintf("(%s, TTuple %s)", gb(t.Name), common.GList(fs)))
+	}
+	return common.GList(out), true
 }
